@@ -349,7 +349,7 @@ CLAIMED = {
     ),
     "C03": (
         "Coq proof (payload builders of a core set of constructors vs the REGENERATED payload regexes through the verified regex matcher: finite sweeps lifted by lemma for indexes / log entries / OpenTherm ids / fragment headers, symbolic-string matching with a soundness theorem for payloads with arbitrary data fields, builder-then-decoder equalities for the mode / time / configuration commands; refuted classes by witnesses) + whole-domain correspondence with the real constructors + oracle over all 45 constructors",
-        "28 theorems in coq/props/C03.v. put_co2_level / parser_1298 and put_indoor_humidity / parser_12a0 (M_ParamCmd): accepted by the regenerated I|1298 / I|12A0 regexes; every whole number of ppm below 7FFF comes back, None and 32767 read as no sensor, 32768 up as a sensor fault (the constructor checks no range); whole percents 0..100 and None by a sweep. set_tpi_params / parser_1100 (M_ParamCmd): built with arguments in the decoder's domain => accepted by the regenerated W|1100 regex and decoded to "
+        "32 theorems in coq/props/C03.v. The getters with a fixed payload (M_Command.fgetter: get_schedule_version / get_system_language / get_system_time / get_system_mode and the three DHW getters): for a DHW index 00/01 built, accepted by the regenerated RQ regex and registered under RQ|code; over every index 0..255 accepted exactly when the getter takes no index or the index is 00/01 (C03_fixed_getters_valid / _idx; get_dhw_mode(dhw_idx=2) refuted: the recorded dhw-idx-let-through root), tied by correspondence:fixed-getters (payload or refusal, verb|code, decoder's verdict). put_co2_level / parser_1298 and put_indoor_humidity / parser_12a0 (M_ParamCmd): accepted by the regenerated I|1298 / I|12A0 regexes; every whole number of ppm below 7FFF comes back, None and 32767 read as no sensor, 32768 up as a sensor fault (the constructor checks no range); whole percents 0..100 and None by a sweep. set_tpi_params / parser_1100 (M_ParamCmd): built with arguments in the decoder's domain => accepted by the regenerated W|1100 regex and decoded to "
         "exactly what was asked (minutes in quarters, band width via C04's codec), and the refuted class: the constructor checks none of its numeric arguments (KNOWN). Three about coq/model/M_ParamCmd.v (set_dhw_params / parser_10a0, set_mix_valve_params / parser_1030, put_sensor_temp and put_dhw_temp / parser_30c9, parser_1260: built => accepted and decoded back, for every argument combination not refused and every temperature word). Nine about coq/model/M_ModeCmd.v (= set_zone_mode, set_dhw_mode, set_system_mode, set_system_time, "
         "set_zone_config with _normalise_mode / _normalise_until, AND the decoders parser_2349 / parser_1f41 / parser_2e04 / parser_313f / "
         "parser_000a): for every zone 0..15, every mode argument, EVERY setpoint word, every valid end time (years 1..9999, leap days) and "
